@@ -94,6 +94,10 @@ def execute(case, ctx):
     vals = [x for t in world["tables"] for row in t for x in row] if kind == "bn" else [x for f in world["factors"] for x in f["values"]]
     backend = seams.effective_backend(case.get("backend", "numpy"), vals)
     seams.set_backend(backend)
+    if backend == "torch":
+        from ..refmodel import set_torch_rounding
+
+        set_torch_rounding(True)  # values pass through float32 at every factor construction (known finding of C01)
     ctx.backend = backend
     if backend != "numpy":
         ctx.fault("backend_config")
@@ -179,9 +183,9 @@ def check_assignment(ctx, names, world, ref, res, q, ev, virt, what, row=None):
     post = ref.posterior(q, ev, virt)
     p = float(post[tuple(idx)])
     best = float(post.max())
-    from ..refmodel import is_single
+    from ..refmodel import is_single, is_torch_rounding
 
-    if p < best - TOL - (2e-3 if is_single() else 1e-7) * best:
+    if p < best - TOL - (2e-3 if is_single() else (1e-5 if is_torch_rounding() else 1e-7)) * best:
         ctx.fail("maximiser", f"{PROP}:not_max:{what}", {"returned": idx, "p": p, "max": best, "argmax": [int(x) for x in np.unravel_index(int(post.argmax()), post.shape)],
                                                          "q": q, "ev": sorted(ev.items()), "row": row})
         return False
@@ -219,6 +223,10 @@ def _predict(case, ctx, op, model, names, ref):
     finally:
         seams.reset_environment()
         seams.set_backend(getattr(ctx, "backend", "numpy"))
+        if getattr(ctx, "backend", "numpy") == "torch":
+            from ..refmodel import set_torch_rounding
+
+            set_torch_rounding(True)
     ctx.checked += 1
     if len(out) != len(rows):
         ctx.fail("keys", f"{PROP}:predict_rows", {"got": len(out), "want": len(rows)})
